@@ -73,6 +73,25 @@ theorem non_event_messages_pass_unchanged (edit : Bytes → Bytes) (i : In) (h :
   obtain ⟨site, cls, data, raw, allow, ok⟩ := i
   cases site <;> cases cls <;> simp_all [handle, Site.toBackend]
 
+/-! ### histories of several messages: every event owns its body -/
+
+/-- Event `k` of any history exposes its own message body, also when its subscriber looks after all
+    later messages were handled. -/
+theorem event_keeps_its_own_body (bodies : List Bytes) (k : Nat) :
+    lateView (allocFresh [] bodies) k = bodies[k]? := by
+  rw [allocFresh_eq]; simp [lateView]
+
+/-- Later messages never change what an earlier event exposes. -/
+theorem later_messages_never_change_earlier_event (bodies more : List Bytes) (k : Nat) (hk : k < bodies.length) :
+    lateView (allocFresh [] (bodies ++ more)) k = lateView (allocFresh [] bodies) k := by
+  rw [allocFresh_eq, allocFresh_eq]
+  simp only [lateView, List.nil_append]
+  rw [List.getElem?_append_left hk]
+
+/-- With one reused scratch buffer this fails: the first event ends up exposing the second body. -/
+theorem shared_scratch_buffer_fails :
+    lateViewScratch (allocScratch ([], []) [[65, 65, 65], [66, 66, 66]]) 0 = some [66, 66, 66] := by decide
+
 /-! ### the defects repaired by fixes/C25-*.diff, as kernel-checked witnesses on the pre-fix variant -/
 
 /-- pre-fix: a successfully forwarded registration raised NO event … -/
@@ -132,6 +151,9 @@ theorem src_dispatch_and_order :
     clientPlayCalls.idxOf "c.proxy().event.Fire" < clientPlayCalls.idxOf "plugin.IsUnregister" ∧
     backendConfigCalls.idxOf "copy" < backendConfigCalls.idxOf "event.FireParallel" ∧
     "copy" ∈ backendConfigCalls ∧
+    (∀ l ∈ [clientPlayCalls, clientInitialCalls, backendPlayCalls, backendConfigCalls],
+      l.idxOf "make" < l.idxOf "copy" ∧ l.idxOf "copy" < l.idxOf "event.FireParallel" ∧
+      l.idxOf "event.FireParallel" < l.length ∧ !l.contains "append") ∧
     backendConfigCalls.idxOf "func:{" < backendConfigCalls.idxOf "pme.Data" ∧ "pme.Data" ∈ backendConfigCalls ∧
     backendConfigForwardCalls = ["b.serverConn.player.WritePacket", "return", "b.serverConn.player.Write"] := by
   decide
